@@ -83,7 +83,7 @@ def _cfg_effective_mode_ack(self: World) -> bool:
 World.cfg_effective_mode_ack = _cfg_effective_mode_ack  # type: ignore[attr-defined]
 
 
-def success_end_state(w: World, r: Runner, outcome: str, *, allow_faults_cb: bool = False, exactly_one: bool = True) -> list[dict[str, Any]]:
+def success_end_state(w: World, r: Runner, outcome: str, *, allow_faults_cb: bool = False, exactly_one: bool = True, since: int = 0) -> list[dict[str, Any]]:
     """The 'transfer completed successfully' end-state of C02/C03: file identical, exactly one
     successful Transaction-Finished per side, both idle, (no fault callback, no exception)."""
     v: list[dict[str, Any]] = []
@@ -106,7 +106,7 @@ def success_end_state(w: World, r: Runner, outcome: str, *, allow_faults_cb: boo
         if got != w.data:
             v.append({"clause": "file-differs", "dest_len": None if got is None else len(got), "src_len": len(w.data)})
     for side in ("S", "D"):
-        fins = [e["fin"] for e in w.log.of("ind_finished", side)]
+        fins = [e["fin"] for e in w.log.of("ind_finished", side) if e["seq"] >= since]
         if w.cfg["ind"][3] is False:
             continue
         if len(fins) != 1 and (exactly_one or not fins):
@@ -114,7 +114,7 @@ def success_end_state(w: World, r: Runner, outcome: str, *, allow_faults_cb: boo
         elif any(tuple(f[:2]) != ("NO_ERROR", "DATA_COMPLETE") for f in fins):
             v.append({"clause": "finished-indication-not-success", "side": side, "fins": fins})
     if not allow_faults_cb:
-        fh = [(e["side"], e["which"], e["cond"]) for e in w.log.of("fh")]
+        fh = [(e["side"], e["which"], e["cond"]) for e in w.log.of("fh") if e["seq"] >= since]
         if fh:
             v.append({"clause": "fault-callback-fired", "fh": fh})
     return v
